@@ -39,6 +39,9 @@ type Case struct {
 	// ReadScript (syscall-shim build only): outcome of the connection's read system calls, cyclic:
 	// 0 pass, 2 EINTR, 3 EAGAIN although data is there (never in plain ET)
 	ReadScript []int `json:"read_script,omitempty"`
+	// HalfClose: after its last burst every stream peer shuts down its sending direction (FIN); everything
+	// it sent before must still be delivered, and nothing may spin afterwards
+	HalfClose bool `json:"half_close,omitempty"`
 }
 
 const window = 4 * time.Second
@@ -205,7 +208,19 @@ func runCase(c Case) vlib.Result {
 		sts = append(sts, st)
 	}
 	if len(c.ReadScript) > 0 && shimAvailable {
-		defer installReadScript(fds, c.ReadScript, &injected)()
+		script := c.ReadScript
+		if c.HalfClose {
+			// once the peer's FIN has arrived a real read never reports EAGAIN (it reports the data, then 0):
+			// a faked EAGAIN would tell the library "nothing left" about a stream whose end it was told of
+			script = nil
+			for _, k := range c.ReadScript {
+				if k == 3 {
+					k = 0
+				}
+				script = append(script, k)
+			}
+		}
+		defer installReadScript(fds, script, &injected)()
 	}
 	for _, nbc := range nbcs {
 		if _, err := g.AddConn(nbc); err != nil {
@@ -239,6 +254,14 @@ func runCase(c Case) vlib.Result {
 				}
 				pos += int64(b.Size)
 			}
+			if c.HalfClose {
+				switch pc := peers[i].(type) {
+				case *net.TCPConn:
+					_ = pc.CloseWrite()
+				case *net.UnixConn:
+					_ = pc.CloseWrite()
+				}
+			}
 		}(i, c.Conns[i])
 	}
 	wg.Wait()
@@ -262,9 +285,13 @@ func runCase(c Case) vlib.Result {
 	}
 	if c.OutBacklog > 0 {
 		res.Classes = append(res.Classes, "write-backlog-pending-during-reads")
-		// with a pending backlog in LT mode the armed write event makes epoll_wait return at once for
-		// as long as the peer does not read: that is not an idle state, so the idle oracle is skipped
-	} else if err := idleCheck(&res); err != nil {
+	}
+	if c.HalfClose {
+		res.Classes = append(res.Classes, "peer-half-close")
+	}
+	// no input is pending now (a pending outbound backlog to a peer that does not read is no reason to
+	// run either: the socket is not writable)
+	if err := idleCheck(&res); err != nil {
 		res.Err = err
 		return res
 	}
@@ -506,6 +533,12 @@ func cells() []Case {
 						cb.OutBacklog = 1 << 20
 						cb.Conns = [][]Burst{{{Size: 100}, {Size: 5000, GapUs: 20000}, {Size: 1, GapUs: 20000}, {Size: 70000, GapUs: 20000}}}
 						out = append(out, cb)
+						ch := cb
+						ch.HalfClose = true
+						out = append(out, ch)
+						cn := c
+						cn.HalfClose = true
+						out = append(out, cn)
 					}
 				}
 			}
@@ -555,6 +588,7 @@ func gen(t *rapid.T) Case {
 		}
 		c.Conns = append(c.Conns, bursts)
 	}
+	c.HalfClose = rapid.IntRange(0, 3).Draw(t, "halfclose") == 0
 	if shimAvailable && rapid.Bool().Draw(t, "readscript") {
 		kinds := []int{0, 0, 2, 3}
 		if c.Mode == vlib.ModeET {
